@@ -53,8 +53,6 @@ DeliverViol(gg, ax, n) ==
       d == gg.dl[n][i]
       prevH == IF i > 1 /\ gg.dl[n][i - 1].inc = d.inc THEN gg.dl[n][i - 1].h ELSE gg.base[n][d.inc]
       r == ax.rs[n][d.inc]
-      \* earlier deliveries of n that share a transaction with d at another height and are still part of n's chain
-      clash == {j \in 1..(i - 1) : gg.dl[n][j].h # d.h /\ Effective(gg, n, j, i) /\ gg.dl[n][j].txs \cap d.txs # {}}
   IN
      (IF C20_Contiguous_At(gg, n, i) THEN {}
       ELSE {<<"C20_Contiguous", [n |-> n, inc |-> d.inc, h |-> d.h, after |-> prevH]>>})
